@@ -27,6 +27,38 @@ Proof.
 Qed.
 Print Assumptions C18_build_work_bound.
 
+(** Cost of each of those path queries (`has_path_connecting`, modelled by [Dag.bfs], which keeps a
+    visited set): on any well-formed edge list over the n functions -- in particular every
+    intermediate edge list of the augmenter -- one query expands at most n nodes and walks at most
+    [length es] adjacency entries, however many paths the graph has.  [bfs_expansions] / [bfs_scans]
+    (QueryCost.v) are [Dag.bfs] with the two counters added.  With the n(n-1)/2 queries above, build()
+    performs at most n^2 (n-1)/2 expansions in its path queries. *)
+From FG Require Import QueryCost.
+Theorem C18_path_query_cost_bound : forall n es a,
+  wf_edges n es -> a < n ->
+  bfs_expansions (S n) es [a] [a] <= n /\ bfs_scans (S n) es [a] [a] <= length es.
+Proof. exact query_cost_bound. Qed.
+Print Assumptions C18_path_query_cost_bound.
+
+(** Instance: the queries build() makes on the graph assembled by any builder call sequence. *)
+Theorem C18_build_query_cost : forall ops a,
+  let B := builder_run ops in
+  a < ncount B ->
+  bfs_expansions (S (ncount B)) (edges B) [a] [a] <= ncount B /\ bfs_scans (S (ncount B)) (edges B) [a] [a] <= length (edges B).
+Proof.
+  intros ops a B Ha. apply query_cost_bound; [|exact Ha].
+  destruct (builder_wf ops) as [Hwf _]. exact Hwf.
+Qed.
+Print Assumptions C18_build_query_cost.
+
+Definition layered2_for_query (layers : nat) : list edge :=
+  flat_map (fun l => [(2*l, 2*l+2, Logic); (2*l, 2*l+3, Logic); (2*l+1, 2*l+2, Logic); (2*l+1, 2*l+3, Logic)]) (seq 0 (layers - 1)).
+(** Non-vacuity: on the layered 2 x 8 graph (256 root-to-sink paths) a query from a root expands
+    15 nodes and walks 26 adjacency entries. *)
+Example C18_query_example :
+  bfs_expansions 17 (layered2_for_query 8) [0] [0] = 15 /\ bfs_scans 17 (layered2_for_query 8) [0] [0] = 26.
+Proof. vm_compute. split; reflexivity. Qed.
+
 (** Non-vacuity / regression witness: on the layered 2 x 8 graph the repaired relaxation pops 16
     times; the algorithm as it stood before the repair (child re-queued unconditionally) pops 510
     times, more than n*n = 256 (it counts root-to-node paths). *)
